@@ -696,6 +696,8 @@ val a_empty : table
 
 val a_t4 : table -> trie
 
+val a_size : trie -> nat
+
 val a_arm : nat option -> ast -> ast
 
 val a_init_ast : ast
